@@ -5,7 +5,7 @@
 
 enum { G_LIFE = 1, G_REG = 2, G_MSG = 4, G_SUB = 8, G_PILL = 16, G_ARM = 32, G_CTX = 64, G_BATCH = 128, G_STASH = 256, G_BECOME = 512,
        G_SRC = 1024, G_ENV = 2048, G_SYS = 4096, G_REFS = 8192, G_FAULT = 16384, G_TICK = 32768, G_ILLEGAL = 65536, G_AUTOFREE = 131072,
-       G_QUIT = 262144, G_CTXCALL = 524288, G_PRIO = 1048576, G_BCAST = 2097152, G_BUCKET = 4194304, G_READY = 8388608, G_BADPARAM = 16777216, G_EPOLLFAULT = 33554432 };
+       G_QUIT = 262144, G_CTXCALL = 524288, G_PRIO = 1048576, G_BCAST = 2097152, G_BUCKET = 4194304, G_READY = 8388608, G_BADPARAM = 16777216, G_EPOLLFAULT = 33554432, G_CTLFAULT = 67108864 };
 typedef struct {
     const char *prop; int nmods; unsigned groups, rules; int maxdev;
     const char *prelude;                 /* hex ops applied at reset (not counted in depth) */
@@ -74,7 +74,7 @@ static int enabled_ops(op_t *o, int max) {
         if (P.groups & G_BCAST) { EMIT(O_BCAST, s, 0, 0); if (P.groups & G_AUTOFREE) EMIT(O_BCAST, s, 0, 1); }
         if (P.groups & G_PILL) for (int t = 0; t < NMO; t++) if (handle(t) && (MD[t].st == S_RUNNING || ill)) EMIT(O_PILL, s, t);
         if (P.groups & G_BECOME) { if (st == S_RUNNING || ill) { for (int h = 1; h <= 2; h++) if (m->nhs < 3) EMIT(O_BECOME, s, h); EMIT(O_UNBECOME, s); } }
-        if (P.groups & G_BATCH) { for (int b = 0; b < 4; b++) if (BSZ[b] != m->batch_size) EMIT(O_BATCH_SIZE, s, b); for (int t = 0; t < 2; t++) if (t != m->batch_tmo) EMIT(O_BATCH_TMO, s, t); }
+        if (P.groups & G_BATCH) { for (int b = 0; b < 4; b++) if (BSZ[b] != m->batch_size || b == 0) EMIT(O_BATCH_SIZE, s, b);   /* re-setting 0 is generated too: it must be a no-op */ for (int t = 0; t < 2; t++) if (t != m->batch_tmo) EMIT(O_BATCH_TMO, s, t); }
         if (P.groups & G_SRC) for (int kd = 0; kd < NKIND; kd++) if (P.kinds & (1u << kd)) {
             for (int key = 0; key < NKEYS[kd]; key++) {
                 int idx = find_src(s, kd, key);
@@ -121,6 +121,7 @@ static int enabled_ops(op_t *o, int max) {
     }
     if (P.groups & G_ENV) { for (int k = 0; k < 3; k++) if (shim_timers_armed() || 1) { if (k < 2 || (P.groups & G_TICK)) EMIT(O_ADVANCE, k); } }
     if ((P.groups & G_FAULT) && dev < P.maxdev) { if (!shim_inject_write_eagain) for (int k = 0; k < P.nmods; k++) EMIT(O_INJECT, INJ_WRITE_EAGAIN, k); }
+    if ((P.groups & G_CTLFAULT) && dev < P.maxdev && !shim_inject_ctl_del) EMIT(O_INJECT, INJ_CTL_DEL);
     if ((P.groups & G_EPOLLFAULT) && dev < P.maxdev && CX.looping && !shim_inject_epoll_errno) { EMIT(O_INJECT, INJ_EPOLL_EINTR); EMIT(O_INJECT, INJ_EPOLL_EBADF); }
     if (P.groups & G_READY) for (int k = 0; k < NUFD; k++) if (UFD[k].open_rd && UFD[k].bytes < 2) { int used = 0; for (int t = 0; t < NM; t++) if (find_src(t, K_FD, k) >= 0) used = 1; if (used) EMIT(O_READY, k); }
     if (P.groups & G_REFS) for (int i = 0; i < nret; i++) EMIT(O_RELEASE, i);
@@ -164,7 +165,7 @@ static void fmt_op(op_t op, char *b, size_t cap) {
     case O_ARM: snprintf(b, cap, "arm(%s.%s: %s %d)", A, CBN[(op.b >> 5) & 3], AN[(op.b & 31) < A_MAX ? (op.b & 31) : 0], op.d); break;
     case O_READY: snprintf(b, cap, "make_readable(fd%d)", op.a); break;
     case O_ADVANCE: snprintf(b, cap, "advance(%luns)", (unsigned long)ADV[op.a & 3]); break;
-    case O_INJECT: snprintf(b, cap, "inject(%s)", op.a == 0 ? (op.b == 0 ? "next pipe write -> EAGAIN" : op.b == 1 ? "2nd next pipe write -> EAGAIN" : "3rd next pipe write -> EAGAIN") : op.a == 1 ? "next epoll_wait -> EINTR" : "next epoll_wait -> EBADF"); break;
+    case O_INJECT: snprintf(b, cap, "inject(%s)", op.a == 0 ? (op.b == 0 ? "next pipe write -> EAGAIN" : op.b == 1 ? "2nd next pipe write -> EAGAIN" : "3rd next pipe write -> EAGAIN") : op.a == 1 ? "next epoll_wait -> EINTR" : op.a == 2 ? "next epoll_wait -> EBADF" : "next EPOLL_CTL_DEL reported as failed"); break;
     case O_RELEASE: snprintf(b, cap, "release_event(%d)", op.a); break;
     default: snprintf(b, cap, "op%d(%d,%d,%d)", op.c, op.a, op.b, op.d);
     }
@@ -176,7 +177,7 @@ static void canon(char *b, size_t cap) {
 #define AP(...) do { if (p < cap) p += snprintf(b + p, cap - p, __VA_ARGS__); } while (0)
     AP("cx%d%d%d%d%d%d%d|", CX.exists, CX.persist, CX.looping, CX.quit, CX.quit ? CX.quit_code : 0, CX.finalized, CX.tick);
     for (int s = 0; s < NM; s++) { mod_t *m = &MD[s];
-        AP("M%d:%d%d%d%d%d%d:", s, m->present, m->st, m->extra, m->evalmode, m->startret, m->flagsidx);
+        AP("M%d:%d%d%d%d%d%d:L%x:", s, m->present, m->st, m->extra, m->evalmode, m->startret, m->flagsidx, m->present ? m->life : 0);
         for (int k = 0; k < NCB; k++) AP("%d.%d,", m->armed[k].act, m->armed[k].arg);
         AP("s"); for (int q = 0; q < NPAT; q++) if (m->sub[q].present) AP("%d%d%d%d,", q, m->sub[q].prio, m->sub[q].oneshot, m->sub[q].upver);
         AP("m"); for (int k = 0; k < m->nmb; k++) { msg_t *g = &MSG[m->mb[k].msg]; AP("%d.%d.%d.%d.%d.%x,", g->sender + 1, g->topic, g->sys, g->autofree, m->mb[k].optional, m->mb[k].pats); }
@@ -188,7 +189,7 @@ static void canon(char *b, size_t cap) {
     }
     AP("T"); for (int i = 0; i < 24; i++) if (MT[i].used) AP("%d.%d.%d.%lu,", MT[i].slot, MT[i].src, MT[i].armed, MT[i].armed ? (unsigned long)(MT[i].next - shim_now_ns) : 0ul);
     AP("U"); for (int i = 0; i < NUFD; i++) AP("%d.%d,", UFD[i].open_rd, UFD[i].bytes);
-    AP("R%d I%d%d", nret, shim_inject_write_eagain, shim_inject_epoll_errno);
+    AP("R%d I%d%d%d", nret, shim_inject_write_eagain, shim_inject_epoll_errno, shim_inject_ctl_del);
 }
 
 /* ---- probes (run on a replayed copy of the state) ---- */
